@@ -33,6 +33,9 @@ from allmydata.storage_client import _StorageServer
 from allmydata.client import _Client, read_config
 
 BASE_TIME = 1_700_000_000.0
+_NOW_MODULES = ("allmydata.immutable.downloader.node", "allmydata.immutable.downloader.segmentation",
+                "allmydata.immutable.downloader.share", "allmydata.immutable.downloader.finder",
+                "allmydata.immutable.filenode")
 
 
 class IntentionalError(Exception):
@@ -62,6 +65,17 @@ class Runtime:
         reactor.callLater = self.clock.callLater
         reactor.seconds = self.clock.seconds
         _time.time = lambda: BASE_TIME + self.clock.seconds()
+        # modules that bound the wall clock at import time (`now = time.time`, `from time import time as now`):
+        # their round-trip-time sort keys would otherwise be wall-clock noise and runs would not replay
+        self._saved["now"] = []
+        for modname in _NOW_MODULES:
+            try:
+                mod = __import__(modname, fromlist=["now"])
+            except Exception:
+                continue
+            if hasattr(mod, "now"):
+                self._saved["now"].append((mod, mod.now))
+                mod.now = _time.time
         self._reset_eventual_queue()
         return self
 
@@ -80,6 +94,8 @@ class Runtime:
             reactor.callLater = self._saved["callLater"]
             reactor.seconds = self._saved["seconds"]
             _time.time = self._saved["time"]
+            for mod, fn in self._saved.get("now", []):
+                mod.now = fn
             self._saved = {}
             self._reset_eventual_queue()
 
